@@ -481,10 +481,11 @@ pub fn property() -> Property {
             "128-bit integers and maps with non-string keys are outside the stated domain; non-finite floats map to null on both sides".into(),
             "decoded values are compared through their JSON images".into(),
         ],
+        minimise: None,
         subs: vec![
             Sub::Custom(CustomSub { name: "cases", run: fixed_cases, replay: replay_case }),
-            Sub::Bytes(BytesSub { name: "typed", f: typed, max_len: 800, quick: Budget { threads: 8, cases: 4000 }, thorough: Budget { threads: 16, cases: 200_000 } }),
-            Sub::Bytes(BytesSub { name: "cross", f: cross, max_len: 800, quick: Budget { threads: 8, cases: 4000 }, thorough: Budget { threads: 16, cases: 200_000 } }),
+            Sub::Bytes(BytesSub { name: "typed", f: typed, max_len: 800, quick: Budget { threads: 8, cases: 4000 }, thorough: Budget { threads: 16, cases: 200_000 }, keep_unreproducible: false }),
+            Sub::Bytes(BytesSub { name: "cross", f: cross, max_len: 800, quick: Budget { threads: 8, cases: 4000 }, thorough: Budget { threads: 16, cases: 200_000 }, keep_unreproducible: false }),
         ],
     }
 }
